@@ -34,7 +34,9 @@ def dec(out):
 def run_mlr_cli(ctx, verbargs, recs):
     """end-to-end through the mlr command line (expensive: one process per case)"""
     argv = [a if isinstance(a, bytes) else a.encode("latin1") for a in SEPARGS + verbargs]
-    st, out, err = mlr_run(ctx, argv, enc(recs), timeout=60)
+    st, out, err = mlr_run(ctx, argv, enc(recs), timeout=120)
+    if st == "hang":            # a loaded machine, not a hang, until a long timeout says otherwise
+        st, out, err = mlr_run(ctx, argv, enc(recs), timeout=900)
     return st, (dec(out) if st == 0 else None), err
 
 
